@@ -167,9 +167,13 @@ def impl(case):
         return {"reject": common.errstr(ex)}
     pm = observe.find_module(pkg, case["name"])
     ws = observe.module_widths(pm)
-    mj = next(x for x in observe.pkg_json(pkg)["modules"] if x["name"] == pm.name)
-    reads = [[i.name, [[c.portname, [[n, b] for n, b in observe.target_bits(c.target, ws)]] for c in i.connections]] for i in pm.instances]
-    return {"module": mj, "reads": reads}
+    pj = observe.pkg_json(pkg)
+    mj = next(x for x in pj["modules"] if x["name"] == pm.name)
+    rd = lambda q: [[i.name, [[c.portname, [[n, b] for n, b in observe.target_bits(c.target, observe.module_widths(q))]] for c in i.connections]] for i in q.instances]
+    return {"module": mj, "reads": rd(pm),
+            # the whole package: every module by its short name, in package order
+            "package": [{"name": q.name.split(".")[-1], "module": next(x for x in pj["modules"] if x["name"] == q.name), "reads": rd(q)} for q in pkg.modules],
+            "ext_names": [[e["domain"], e["name"]] for e in pj["ext_modules"]]}
 
 
 def line(case):
@@ -180,6 +184,60 @@ def line(case):
                        "instances": [{"n": i["n"], "ref": refs[i["t"]], "conns": i["conns"]} for i in case["insts"]]},
             "ctx": [[r, [[n, w] for n, w in t["ports"]]] for r, t in zip(refs, case["targets"])]}
 
+
+def child_source(t):
+    """the child module `impl` builds for a target of kind `mod`, as the model's source module"""
+    first = t["ports"][0]
+    sig = {"k": "sig", "n": first[0], "w": first[1]}
+    return {"name": t["name"], "signals": [], "ports": [[n, w, "NONE"] for n, w in t["ports"]],
+            "instances": [{"n": "r", "ref": {"ext": ["vlsir.primitives", "resistor"]},
+                           "conns": [["p", {"k": "slice", "p": sig, "i": {"i": 0}}], ["n", {"k": "slice", "p": sig, "i": {"i": -1}}]]}]}
+
+
+def design_line(case):
+    """the whole design for `pipelineDesign`: the child modules the top instantiates (in the order the exporter meets them), then the top"""
+    top = line(case)
+    used = []
+    for i in case["insts"]:
+        if i["t"] not in used:
+            used.append(i["t"])
+    kids = [child_source(case["targets"][t]) for t in used if case["targets"][t]["kind"] == "mod"]
+    exts = [{"domain": "d", "name": case["targets"][t]["name"], "signals": [[n, w] for n, w in case["targets"][t]["ports"]],
+             "ports": [[n, "NONE"] for n, _ in case["targets"][t]["ports"]]} for t in used if case["targets"][t]["kind"] == "ext"]
+    return {"prop": "MP", "op": "design", "ports_first": top["ports_first"], "modules": kids + [top["module"]], "exts": exts}
+
+
+def judge_design(case, im, mo):
+    if mo is None or "protocol_error" in mo:
+        yield ("corr", f"the model could not read the design: {mo}")
+        return
+    if ("ok" in mo) != ("package" in im):
+        if "ok" in mo:
+            yield ("corr", f"the implementation refuses a design the composed model passes: {im.get('reject', '')[:160]}")
+        else:
+            yield ("pred", {"why": f"a design the composed pass list refuses ({mo['error']}, planted fault: {case['fault']}) was exported"})
+        return
+    if "ok" not in mo:
+        return
+    if mo["problems"]:
+        yield ("oracle", {"why": "design_pipeline_wf says this list is empty", "problems": mo["problems"][:5]})
+    if [m["name"] for m in mo["ok"]] != [q["name"] for q in im["package"]]:
+        yield ("corr", f"modules of the package: {[q['name'] for q in im['package']]} vs model {[m['name'] for m in mo['ok']]}")
+        return
+    for b, q in zip(mo["ok"], im["package"]):
+        a = q["module"]
+        if a["signals"] != b["signals"] or [(p["n"], p["dir"]) for p in a["ports"]] != [(p["n"], p["dir"]) for p in b["ports"]]:
+            yield ("corr", f"module {q['name']}: signal / port lists {a['signals']} {a['ports']} vs model {b['signals']} {b['ports']}")
+        if [i["n"] for i in a["instances"]] != [i["n"] for i in b["instances"]]:
+            yield ("pred", {"why": f"module {q['name']} does not have the designer's instances in their order"})
+            continue
+        for (iname, reads), ib in zip(q["reads"], b["instances"]):
+            if reads != [[pn, bits] for pn, bits in ib["reads"]]:
+                yield ("pred", {"why": f"{q['name']}.{iname}: the bits read on its ports are not the bits the designer's connections denote", "got": reads, "want": ib["reads"]})
+                break
+
+
+SD = common.Stream("design_pipe", impl, design_line, judge_design, chunk=16)
 
 STATS = {"accepted": 0, "refused": 0, "same_targets": 0, "other_targets_same_bits": 0, "faults": {}}
 
@@ -227,5 +285,8 @@ S = common.Stream("module_pipe", impl, line, judge, chunk=16, nontrivial=lambda 
 def run(ctx, n=None):
     rng = ctx.rng
     n = n or (250 if ctx.quick else 5000)
-    S.run(ctx, [gen_case(rng, k) for k in range(n)])
+    cases = [gen_case(rng, k) for k in range(n)]
+    S.run(ctx, cases)
+    # the same designs as a whole (`pipelineDesign`: children first, each judged against what the package holds so far; design_pipeline_wf)
+    SD.run(ctx, cases[: max(60, n // 3)])
     ctx.rep.extra["module_pipe"] = dict(STATS)
